@@ -32,6 +32,8 @@ func init() {
 	ghostSorts["ctxExpires"] = arraySort("Int", "Bool")
 	ghostSorts["ctxCancelled"] = arraySort("Int", "Bool")
 	ghostSorts["chHas_Iface"] = arraySort("Int", arraySort(sortIface, "Bool"))
+	ghostSorts["chSeenClosed"] = arraySort("Int", "Bool") // a receive on it returned ok == false: its closer has exited
+	ghostSorts["chErrSeen"] = arraySort("Int", "Bool")    // a non-nil value was received from it (error channels)
 }
 
 func chHasGhost(elem types.Type) string {
@@ -134,6 +136,10 @@ func (x *Exec) recvFrom(fr *Frame, st *State, c *Term, elem types.Type, ins ssa.
 	x.assume(st, Implies(okT, Or(gSel(st, "chExt", c), Select(gSel(st, h, c), vv.T))))
 	ln := gSel(st, "chLen", c)
 	gSet(st, "chLen", c, Ite(And(okT, Gt(ln, Int(0))), Sub(ln, Int(1)), ln))
+	gSet(st, "chSeenClosed", c, Or(gSel(st, "chSeenClosed", c), Not(okT)))
+	if vv.T.Sort == sortIface {
+		gSet(st, "chErrSeen", c, Or(gSel(st, "chErrSeen", c), And(okT, Not(Eq(Acc(vv.T, 0), Int(0))))))
+	}
 	x.chanEvent(fr, st, "recv", c, vv.T, ins)
 	return vv.T, okT
 }
@@ -191,7 +197,11 @@ func (x *Exec) doSelect(fr *Frame, st *State, ins *ssa.Select) Value {
 		var v, ok *Term
 		if x.isDoneChan(c) {
 			v, ok = zeroTerm(elem), False
-			// choosing this case means the context is done
+			// choosing this case means the context is done. A-nostop: a context without a deadline that this thread
+			// has not cancelled is not done
+			id := Acc(c.Args[0], 1)
+			x.assumed["A-nostop: in a select, the Done() case of a context that has no deadline and was not cancelled by this thread is not taken"] = true
+			cs.pc = And(cs.pc, Or(gSel(cs, "ctxExpires", id), gSel(cs, "ctxCancelled", id)))
 			x.markCtxDone(cs, c.Args[0])
 		} else {
 			v, ok = x.recvFrom(fr, cs, c, elem, ins, false)
